@@ -488,3 +488,61 @@ package tbtc
 //@     assert call:walletAction.execute : [action-executed-once-while-holding-the-slot] !ghost.actionEnded
 //@     assert call:Mutex.Lock : [slot-released-only-after-the-action-ended] ghost.actionEnded
 //@     assert call:Mutex.Unlock : [slot-released-on-every-exit] !(key in wd.actions)
+
+// ---------------------------------------------------------------------------
+// C35: signing done check
+
+// Parameters of the attempt being listened to (logical variables shared by
+// listen, its goroutine and checkAllDone).
+//@ ghost doneMembers []group.MemberIndex
+//@ ghost doneMessage int
+//@ ghost doneAttempt int
+//@ ghost doneTimeout int
+
+//@ spec func okDone(sdc *signingDoneCheck, m *signingDoneMessage, id group.MemberIndex) bool
+
+//@ type signingDoneCheck
+//@   property C35
+//@   guarded_by doneSignersMutex doneSigners
+//@   writers doneSigners : signingDoneCheck.listen
+//@   monitor doneSignersMutex forall id group.MemberIndex :: (id in self.doneSigners) ==> (self.doneSigners[id] != nil && self.doneSigners[id].senderID == id && (exists i int :: 0 <= i && i < len(ghost.doneMembers) && ghost.doneMembers[i] == id) && bigval(self.doneSigners[id].message) == ghost.doneMessage && self.doneSigners[id].attemptNumber == ghost.doneAttempt && self.doneSigners[id].endBlock <= ghost.doneTimeout && self.doneSigners[id].signature != nil)
+
+//@ func signingDoneCheck.isValidDoneMessage
+//@   property C35
+//@   opt unguarded-read doneSigners
+//@   requires doneMessage != nil && message != nil
+//@   ensures [accepts-only-attempt-members] result ==> (exists i int :: 0 <= i && i < len(attemptMembersIndexes) && attemptMembersIndexes[i] == doneMessage.senderID)
+//@   ensures [accepts-only-valid-membership] result ==> @validMembership(sdc.membershipValidator, doneMessage.senderID, senderPublicKey)
+//@   ensures [accepts-only-this-message-and-attempt] result ==> bigval(doneMessage.message) == bigval(message) && doneMessage.attemptNumber == attemptNumber
+//@   ensures [accepts-only-in-time-with-signature] result ==> doneMessage.endBlock <= attemptTimeoutBlock && doneMessage.signature != nil
+//@   ensures [one-message-per-member] result ==> !(doneMessage.senderID in sdc.doneSigners)
+
+//@ func signingDoneCheck.listen
+//@   property C35
+//@   opt unguarded-write doneSigners
+//@   opt noframe 1
+//@   requires message != nil
+//@   binds ghost.doneMembers = attemptMembersIndexes
+//@   binds ghost.doneMessage = bigval(message)
+//@   binds ghost.doneAttempt = attemptNumber
+//@   binds ghost.doneTimeout = attemptTimeoutBlock
+//@   lit 2
+//@     requires message != nil && attemptMembersIndexes == ghost.doneMembers && bigval(message) == ghost.doneMessage && attemptNumber == ghost.doneAttempt && attemptTimeoutBlock == ghost.doneTimeout
+//@     opt noframe 1
+
+//@ func signingDoneCheck.checkAllDone
+//@   property C35
+//@   opt noframe 1
+//@   ensures [not-done-unless-count-matches] result2 && result3 == nil ==> sdc.expectedSignersCount == len(sdc.doneSigners)
+//@   ensures [every-confirmation-is-from-an-attempt-member-for-this-attempt] result2 && result3 == nil ==> (forall id group.MemberIndex :: (id in sdc.doneSigners) ==> ((exists i int :: 0 <= i && i < len(ghost.doneMembers) && ghost.doneMembers[i] == id) && bigval(sdc.doneSigners[id].message) == ghost.doneMessage && sdc.doneSigners[id].attemptNumber == ghost.doneAttempt && sdc.doneSigners[id].endBlock <= ghost.doneTimeout))
+//@   ensures [same-signature-from-everyone] result2 && result3 == nil ==> result0 != nil && (forall id group.MemberIndex :: (id in sdc.doneSigners) ==> (sdc.doneSigners[id].signature == result0.Signature || result0.Signature.Equals(sdc.doneSigners[id].signature)))
+//@   ensures [end-block-is-the-latest] result2 && result3 == nil ==> (forall id group.MemberIndex :: (id in sdc.doneSigners) ==> sdc.doneSigners[id].endBlock <= result1) && ((exists id group.MemberIndex :: id in sdc.doneSigners) ==> (exists id group.MemberIndex :: (id in sdc.doneSigners) && sdc.doneSigners[id].endBlock == result1))
+//@   ensures !result2 ==> result0 == nil && result3 == nil
+//@   loop 1 invariant forall id group.MemberIndex :: (id in visited1) ==> (signature != nil && (rangecoll1[id].signature == signature || signature.Equals(rangecoll1[id].signature)) && rangecoll1[id].endBlock <= latestEndBlock)
+//@   loop 1 invariant (forall id group.MemberIndex :: !(id in visited1)) ==> (signature == nil && latestEndBlock == 0)
+//@   loop 1 invariant (exists id group.MemberIndex :: id in visited1) ==> (exists id group.MemberIndex :: (id in visited1) && rangecoll1[id].endBlock == latestEndBlock)
+
+//@ func signingDoneCheck.waitUntilAllDone
+//@   property C35
+//@   opt noframe 1
+//@   ensures [reports-only-what-checkAllDone-found] err == nil ==> result0 != nil
